@@ -307,6 +307,36 @@ def check_state(st, ent, tier, out):
             ok = check_view(view, want, label, full=(k == 0 and nsel % 3 == 0))
             if not ok:
                 break
+            # skip= together with every naming form (the deprecated collections included)
+            if k > 0 and allnames and fl != 'None':
+                nm_ = [allnames[-1]]
+                out.ev()
+                try:
+                    g = set(int(x) for x in b.get_dofs(sel, skip=nm_).flatten())
+                    if g != filt(want, nm_, False):
+                        bad('skip', f"{label}: skip={nm_} returned {sorted(g)[:10]} expected {sorted(filt(want, nm_, False))[:10]}",
+                            selection=label, names=nm_)
+                        break
+                except Exception as e:
+                    bad('filter-exception', f"{label}: skip={nm_} raised {e!r}", selection=label)
+                    break
+            # merging two views (| and the deprecated +): the union of the two DOF sets, interior DOFs included
+            if k == 0 and nsel % 3 == 0:
+                out.ev()
+                try:
+                    cl_ = (T.nt - 1,)
+                    v2 = b.get_dofs(elements=np.array(cl_, dtype=np.int32))
+                    wu = want | closure_cells(cl_)
+                    for opn, mv in (('|', view | v2), ('+', view + v2), ('| reversed', v2 | view)):
+                        g = set(int(x) for x in mv.flatten())
+                        if g != wu:
+                            bad('view-union', f"{label} {opn} get_dofs(elements={list(cl_)}) returned {sorted(g)[:12]} expected the "
+                                f"union {sorted(wu)[:12]}", selection=label)
+                            break
+                        if not dicts_ok(mv, wu, f"{label} {opn} elements={list(cl_)}"):
+                            break
+                except Exception as e:
+                    bad('filter-exception', f"{label}: merging views raised {e!r}", selection=label)
             # skip= at query time
             if k == 0 and allnames:
                 for names in ([allnames[0]], [allnames[-1]]):
@@ -337,6 +367,13 @@ def check_state(st, ent, tier, out):
         if len(F) == 2 and nsel % 5 == 0:
             try:
                 dd = b.get_dofs({'a': np.array([F[0]], dtype=np.int32), 'b': np.array([F[1]], dtype=np.int32)})
+                if allnames:
+                    nm_ = [allnames[-1]]
+                    ds = b.get_dofs({'a': np.array([F[0]], dtype=np.int32), 'b': np.array([F[1]], dtype=np.int32)}, skip=nm_)
+                    if set(int(x) for x in ds['a'].flatten()) != filt(closure_facets((F[0],)), nm_, False) or \
+                            set(int(x) for x in ds['b'].flatten()) != filt(closure_facets((F[1],)), nm_, False):
+                        bad('dict-form-skip', f"facets dict form for {list(F)} with skip={nm_} differs from the filtered single-facet "
+                            f"queries")
                 if set(int(x) for x in dd['a'].flatten()) != closure_facets((F[0],)) or \
                         set(int(x) for x in dd['b'].flatten()) != closure_facets((F[1],)):
                     bad('dict-form', f"facets dict form for {list(F)} differs from the single-facet queries")
